@@ -123,6 +123,7 @@ def --env bump [] {{
 
 const ECHO_SCRIPT: &str = r#"{
   run: {|frame|
+    if $frame.topic == "stop.h" { null | .append "h.unregister"; return }
     if $frame.topic != "trig" { return }
     "echo"
   }
@@ -481,6 +482,31 @@ fn run_in(case: &C14Case, nu: &mut Nu) -> Result<CaseInfo, Fail> {
     if case.pulse_ms.is_none() && pulses > 0 {
         return Err(bad(format!("handler without pulse option was invoked for {pulses} xs.pulse frames")));
     }
+    // "... until it is unregistered": the second handler of the context unregisters the recorder
+    // from its closure (the `.unregister` frame then carries that handler's stamps); the recorder
+    // announces its stop and is not invoked for what follows
+    let mut stopped_by_peer = false;
+    if case.other_handler && case.big_burst == 0 && !lagged_out {
+        nu.append("stop.h", hctx, None, None)?;
+        let rid = reg.id.clone();
+        let (fr, ok) = nu.wait(Duration::from_secs(20), |fr| {
+            fr.iter().any(|w| w.topic == "h.unregistered" && meta_of(w, "handler_id").as_deref() == Some(&rid))
+        })?;
+        if !ok {
+            return Err(bad(format!(
+                "another handler of the context appended h.unregister ({:?}) but the recorder {rid} never announced h.unregistered (20 s): it is still registered",
+                fr.iter().filter(|w| w.topic == "h.unregister").map(|w| (&w.id, &w.meta)).collect::<Vec<_>>()
+            )));
+        }
+        let late = nu.append("trig", hctx, None, None)?;
+        // (the echo handler answers `late`: once its answer is out the recorder has had its chance)
+        nu.wait(Duration::from_secs(10), |fr| fr.iter().any(|w| w.topic == "g.out" && meta_of(w, "frame_id").as_deref() == Some(&late.id)))?;
+        std::thread::sleep(Duration::from_millis(20));
+        if nu.frames()?.iter().any(|w| meta_of(w, "handler_id").as_deref() == Some(&rid) && meta_of(w, "frame_id").as_deref() == Some(&late.id)) {
+            return Err(bad(format!("the recorder {rid} announced h.unregistered and was still invoked for frame {}", late.id)));
+        }
+        stopped_by_peer = true;
+    }
     if let Some(p) = nu.panics()?.first() {
         return Err(Fail::new(Class::Panic, format!("xs panicked: {p}")));
     }
@@ -492,6 +518,7 @@ fn run_in(case: &C14Case, nu: &mut Nu) -> Result<CaseInfo, Fail> {
         (case.other_handler && case.big_burst == 0, "second-handler-in-context"),
         (case.big_burst > 0, "burst-of-hundreds-while-busy"),
         (lagged_out, "handler-lagged-out-and-announced-it"),
+        (stopped_by_peer, "unregistered-by-another-handler"),
         (!note_ids.is_empty(), "silent-invocations-keep-environment"),
         (case.busy_ms > 0, "busy-handler"),
         (case.pulse_ms.is_some(), "pulse"),
